@@ -7,6 +7,7 @@ the result pair) and `vh run` ties `runUntil` (result, final state, callback seq
 -/
 import SnesVerif.Cpu.Cycles
 import SnesVerif.System.RunUntil
+import SnesVerif.Cpu.Refine.Wdm
 open Cpu Sys Gen
 set_option maxRecDepth 100000
 namespace C12
@@ -54,6 +55,32 @@ theorem stopped_latched (v : Variant) (n : Nat) (s s' : St) (h : run v n s = som
 theorem not_stopped_before (v : Variant) (s s' : St) (h : step v s = some ((), s'))
     (hs : s.r.Stopped = false) (hn : fetchesStp v s = false) : s'.r.Stopped = false := by
   rw [(step_book v s s' h).2.2, hs, hn]; rfl
+
+/-- opcode $42 is WDM with an immediate operand in both regenerated tables -/
+theorem wdm_rows : (rowSem (primary_instructions.getD 0x42 default)).proc = .wdm ∧
+    (rowSem (primary_instructions.getD 0x42 default)).mode = .Immediate ∧
+    (rowSem (alt_instructions.getD 0x42 default)).proc = .wdm ∧
+    (rowSem (alt_instructions.getD 0x42 default)).mode = .Immediate := by decide +kernel
+
+/-- **C12 (WDM callback)**: executing WDM latches exactly its operand — the byte after the opcode in the program bank —
+into the WDM register that `OnWDM` is called with; memory is untouched -/
+theorem wdm_operand (v : Variant) (s : St) (h : s.m.f (lin s.r.RK s.r.PC) = 0x42) :
+    ∃ s', step v s = some ((), s') ∧ s'.r.WDM = s.m.f (lin s.r.RK (s.r.PC + 1)) ∧ s'.m = s.m := by
+  have hsem : (semOf v (s.m.f (lin s.r.RK s.r.PC))).proc = .wdm ∧ (semOf v (s.m.f (lin s.r.RK s.r.PC))).mode = amodeOf .imm8 := by
+    rw [h]
+    cases v
+    · exact ⟨wdm_rows.1, wdm_rows.2.1⟩
+    · exact ⟨wdm_rows.2.2.1, wdm_rows.2.2.2⟩
+  obtain ⟨cyc, hds⟩ := decodeStage_eq (semOf v) (adjOf v) .imm8 s hsem.2
+  obtain ⟨s3, h1, h2, h3⟩ := wdm_latches s.r s.m.f s.m.wlog
+    (BitVec.ofNat 16 (semOf v (s.m.f (lin s.r.RK s.r.PC))).size - sizeAdj .imm8 s.r) cyc
+    ((implInfo .imm8 s.r s.m.f).2 % 16777216) (implInfo .imm8 s.r s.m.f).1 (mod_lt _)
+  refine ⟨s3, ?_, h2, h3⟩
+  show stepWith (semOf v) (adjOf v) s = _
+  unfold stepWith
+  rw [bind_eq', hds]
+  simp only [hsem.1]
+  exact h1
 
 /-! ### RunUntil -/
 
